@@ -22,7 +22,7 @@ func init() {
 	register("C02", func(c *Ctx) { runE2E(c, "C02"); runC02Stage(c) })
 	register("C05", func(c *Ctx) { runE2E(c, "C05"); runC05Stage(c); runC05Cache(c) })
 	register("C08", func(c *Ctx) { runE2E(c, "C08"); runC08HTTP(c) })
-	register("C06", func(c *Ctx) { runCrashEnum(c, "C06") })
+	register("C06", func(c *Ctx) { runCrashEnum(c, "C06"); runVersionCrash(c, "C06") })
 	register("C07", func(c *Ctx) { runCrashEnum(c, "C07") })
 }
 
